@@ -251,3 +251,105 @@ Theorem model_is_source_C14 : CFunGen.model_is_source_CFun.
 Proof. exact CFunGen.model_is_source_CFun_lemma. Qed.
 Check model_is_source_C14 : CFunGen.model_is_source_CFun.
 Print Assumptions model_is_source_C14.
+
+(* ---- series half of C14 (package series): the model's exp / sinh / cosh / sin / cos ARE the sums of their defining
+   power series, for every complex argument.  Vocabulary (Proofs/CFunSeries.v; pinned by series_vocabulary below):
+   cpown z n = z^n and csum f N = sum_{n<=N} f n with the model's cmul / cadd (the formulas of src/complex/mod.rs),
+   cpsum a z N = sum_{n<=N} a_n z^n, cconv s l = both components of s N converge (Un_cv) to those of l, which is the
+   same as |s N - l| -> 0.  RtoC r = (r, 0).  Proof route: scaled binomial theorem in the ring C, the standard
+   library's defining series of exp / cos / sin on the two axes, Mertens' theorem for the Cauchy product of absolutely
+   convergent real series (Coquelicot is_series_mult), parity splitting, the rotation z |-> i z. *)
+From OV Require Import Proofs.CFunSeries Proofs.CFunSeriesTrig Proofs.CFunSeriesAbs Proofs.CFunSeriesAll.
+
+Theorem series_vocabulary :
+  (forall z : C, cpown z 0 = cone) /\
+  (forall (z : C) (n : nat), cpown z (S n) = cmul z (cpown z n)) /\
+  (forall f : nat -> C, csum f 0 = f 0%nat) /\
+  (forall (f : nat -> C) (N : nat), csum f (S N) = cadd (csum f N) (f (S N))) /\
+  (forall (a : nat -> C) (z : C) (N : nat), cpsum a z N = csum (fun n => cmul (a n) (cpown z n)) N) /\
+  (forall (s : nat -> C) (l : C),
+     cconv s l <-> Un_cv (fun N => re (s N)) (re l) /\ Un_cv (fun N => im (s N)) (im l)) /\
+  (forall (s : nat -> C) (l : C), cconv s l <-> Un_cv (fun N => cabs (csub (s N) l)) 0) /\
+  (forall (s : nat -> C) (l l' : C), cconv s l -> cconv s l' -> l = l').
+Proof. exact series_vocabulary_lemma. Qed.
+Check series_vocabulary :
+  (forall z : C, cpown z 0 = cone) /\
+  (forall (z : C) (n : nat), cpown z (S n) = cmul z (cpown z n)) /\
+  (forall f : nat -> C, csum f 0 = f 0%nat) /\
+  (forall (f : nat -> C) (N : nat), csum f (S N) = cadd (csum f N) (f (S N))) /\
+  (forall (a : nat -> C) (z : C) (N : nat), cpsum a z N = csum (fun n => cmul (a n) (cpown z n)) N) /\
+  (forall (s : nat -> C) (l : C),
+     cconv s l <-> Un_cv (fun N => re (s N)) (re l) /\ Un_cv (fun N => im (s N)) (im l)) /\
+  (forall (s : nat -> C) (l : C), cconv s l <-> Un_cv (fun N => cabs (csub (s N) l)) 0) /\
+  (forall (s : nat -> C) (l l' : C), cconv s l -> cconv s l' -> l = l').
+Print Assumptions series_vocabulary.
+(* non-vacuity of the uniqueness clause: a sequence that does converge (the exponential series at 1 + i), and the
+   vocabulary computes what it should: the partial sum to N = 2 is 1 + z + z^2/2 *)
+Example series_vocabulary_nonvacuous :
+  cconv (cpsum (fun n => RtoC (/ INR (fact n))) (1, 1)) (cexp (1, 1)) /\
+  forall z : C, cpsum (fun n => RtoC (/ INR (fact n))) z 2 = cadd (cadd cone z) (cmul (RtoC (1 / 2)) (cmul z z)).
+Proof. exact (conj (proj1 (exp_series_lemma (1, 1))) exp_partial_sum_2). Qed.
+
+(* exp z = sum_n z^n / n!  for every complex z, and the sum is nothing else *)
+Theorem exp_series : forall z : C,
+  cconv (cpsum (fun n => RtoC (/ INR (fact n))) z) (cexp z) /\
+  (forall l : C, cconv (cpsum (fun n => RtoC (/ INR (fact n))) z) l -> l = cexp z).
+Proof. exact exp_series_lemma. Qed.
+Check exp_series : forall z : C,
+  cconv (cpsum (fun n => RtoC (/ INR (fact n))) z) (cexp z) /\
+  (forall l : C, cconv (cpsum (fun n => RtoC (/ INR (fact n))) z) l -> l = cexp z).
+Print Assumptions exp_series.
+
+(* the exponential series converges absolutely (sum |z^n/n!| = exp |z|); the truncation error after the term N is at most
+   the tail of the real series at |z|, which is at most |z|^(N+1)/(N+1)! * exp |z|, which tends to 0 *)
+Theorem exp_series_absolute : forall z : C,
+  infinite_sum (fun n => cabs (cmul (RtoC (/ INR (fact n))) (cpown z n))) (exp (cabs z)) /\
+  (forall N : nat,
+     cabs (csub (cexp z) (cpsum (fun n => RtoC (/ INR (fact n))) z N))
+     <= exp (cabs z) - sum_f_R0 (fun n => / INR (fact n) * cabs z ^ n) N
+     <= cabs z ^ S N / INR (fact (S N)) * exp (cabs z)) /\
+  Un_cv (fun N => cabs z ^ S N / INR (fact (S N)) * exp (cabs z)) 0.
+Proof. exact exp_series_absolute_lemma. Qed.
+Check exp_series_absolute : forall z : C,
+  infinite_sum (fun n => cabs (cmul (RtoC (/ INR (fact n))) (cpown z n))) (exp (cabs z)) /\
+  (forall N : nat,
+     cabs (csub (cexp z) (cpsum (fun n => RtoC (/ INR (fact n))) z N))
+     <= exp (cabs z) - sum_f_R0 (fun n => / INR (fact n) * cabs z ^ n) N
+     <= cabs z ^ S N / INR (fact (S N)) * exp (cabs z)) /\
+  Un_cv (fun N => cabs z ^ S N / INR (fact (S N)) * exp (cabs z)) 0.
+Print Assumptions exp_series_absolute.
+
+(* sinh z = sum_n z^(2n+1)/(2n+1)!,  cosh z = sum_n z^(2n)/(2n)! *)
+Theorem hyperbolic_series : forall z : C,
+  cconv (fun N => csum (fun n => cmul (RtoC (/ INR (fact (2 * n + 1)))) (cpown z (2 * n + 1))) N) (csinh z) /\
+  cconv (fun N => csum (fun n => cmul (RtoC (/ INR (fact (2 * n)))) (cpown z (2 * n))) N) (ccosh z).
+Proof. exact hyperbolic_series_lemma. Qed.
+Check hyperbolic_series : forall z : C,
+  cconv (fun N => csum (fun n => cmul (RtoC (/ INR (fact (2 * n + 1)))) (cpown z (2 * n + 1))) N) (csinh z) /\
+  cconv (fun N => csum (fun n => cmul (RtoC (/ INR (fact (2 * n)))) (cpown z (2 * n))) N) (ccosh z).
+Print Assumptions hyperbolic_series.
+
+(* sin z = sum_n (-1)^n z^(2n+1)/(2n+1)!,  cos z = sum_n (-1)^n z^(2n)/(2n)! *)
+Theorem trig_series : forall z : C,
+  cconv (fun N => csum (fun n => cmul (RtoC ((-1) ^ n / INR (fact (2 * n + 1)))) (cpown z (2 * n + 1))) N) (csin z) /\
+  cconv (fun N => csum (fun n => cmul (RtoC ((-1) ^ n / INR (fact (2 * n)))) (cpown z (2 * n))) N) (ccos z).
+Proof. exact trig_series_lemma. Qed.
+Check trig_series : forall z : C,
+  cconv (fun N => csum (fun n => cmul (RtoC ((-1) ^ n / INR (fact (2 * n + 1)))) (cpown z (2 * n + 1))) N) (csin z) /\
+  cconv (fun N => csum (fun n => cmul (RtoC ((-1) ^ n / INR (fact (2 * n)))) (cpown z (2 * n))) N) (ccos z).
+Print Assumptions trig_series.
+
+(* the same four as power series sum_n a_n z^n over every n (a_n = 0 at the other parity; Nat.div2 n = floor (n/2)):
+   the whole sequence of partial sums converges *)
+Theorem power_series_forms : forall z : C,
+  cconv (cpsum (fun n => RtoC (if Nat.odd n then / INR (fact n) else 0)) z) (csinh z) /\
+  cconv (cpsum (fun n => RtoC (if Nat.even n then / INR (fact n) else 0)) z) (ccosh z) /\
+  cconv (cpsum (fun n => RtoC (if Nat.odd n then (-1) ^ Nat.div2 n / INR (fact n) else 0)) z) (csin z) /\
+  cconv (cpsum (fun n => RtoC (if Nat.even n then (-1) ^ Nat.div2 n / INR (fact n) else 0)) z) (ccos z).
+Proof. exact power_series_forms_lemma. Qed.
+Check power_series_forms : forall z : C,
+  cconv (cpsum (fun n => RtoC (if Nat.odd n then / INR (fact n) else 0)) z) (csinh z) /\
+  cconv (cpsum (fun n => RtoC (if Nat.even n then / INR (fact n) else 0)) z) (ccosh z) /\
+  cconv (cpsum (fun n => RtoC (if Nat.odd n then (-1) ^ Nat.div2 n / INR (fact n) else 0)) z) (csin z) /\
+  cconv (cpsum (fun n => RtoC (if Nat.even n then (-1) ^ Nat.div2 n / INR (fact n) else 0)) z) (ccos z).
+Print Assumptions power_series_forms.
